@@ -127,7 +127,7 @@ BRACE_INCS = ["-", "0", "1", "-1", "2", "-2", "3", "7", "200", str(2 ** 31), str
 CHAR_INCS = ["-", "0", "1", "-1", "2", "-3", "25", "26", "64", "65", "66", "90", "96", "97", "98", "121", "122", "123", "200",
              str(2 ** 31), str(2 ** 32 - 1), str(2 ** 32), str(2 ** 32 + 1), str(2 ** 33), str(2 ** 32 + 97), str(MAX), str(-MAX),
              str(2 ** 63), "99999999999999999999"]
-LETTERS = ["a", "b", "e", "z", "A", "Z", "M"]
+LETTERS = ["a", "b", "e", "m", "z", "A", "B", "Z", "M"]
 MAX_SEQ = 3000
 
 
@@ -186,6 +186,8 @@ def hot_cases(ctx):
                 add("brace_num", "BRACE %s" % esc("p" + word), "BRACEN p %s %s %s" % (s, e, i))
     for a in LETTERS:
         for b in LETTERS:
+            if a.islower() != b.islower():
+                continue   # a range across the two cases produces ` and \, which the later expansion steps interpret
             for i in CHAR_INCS:
                 word = "{%s..%s%s}" % (a, b, "" if i == "-" else ".." + i)
                 add("brace_char", "BRACE %s" % esc(word), "BRACEC %% %s %s %s" % (a, b, i))
@@ -305,8 +307,7 @@ def hot_stage(ctx):
     bouts = run_harness_parallel([h for (_, h, _), _ in runnable])
     nviol = 0
     for ((kind, h, d), m), b in zip(runnable, bouts):
-        kb = kind.split(":")[-1].lower() if kind.startswith("corpus:") else kind
-        kb = {"braceN": "brace_num"}.get(kb, kb)
+        kb = kind
         if kind.startswith("corpus:"):
             op = h.split(" ")[0]
             kb = {"SUBSTR": "substr", "ASUBSTR": "asubstr", "PSUBSTR": "psubstr", "HIST": "hist", "INDEX": "index",
@@ -755,11 +756,11 @@ class Gen:
         if x < 0.57:
             return "for q in %s %s; do %s; done" % (self.word(d - 1), self.word(d - 1), c())
         if x < 0.62:
-            return "for ((i=0; i<%s; i++)); do %s; done" % (self.small(), c())
+            return "for ((i%d=0; i%d<%s; i%d++)); do %s; done" % (d, d, self.small(), d, c())
         if x < 0.67:
-            return "i=0; while ((i++ < %s)); do %s; done" % (self.small(), c())
+            return "j%d=0; while ((j%d++ < %s)); do %s; done" % (d, d, self.small(), c())
         if x < 0.7:
-            return "i=0; until ((i++ > %s)); do %s; done" % (self.small(), c())
+            return "k%d=0; until ((k%d++ > %s)); do %s; done" % (d, d, self.small(), c())
         if x < 0.76:
             return "case %s in %s) %s %s %s|*) %s;; esac" % (self.word(d - 1), self.word(d - 1), c(), r.choice([";;", ";&", ";;&"]), self.word(d - 1), c())
         if x < 0.81:
@@ -767,7 +768,12 @@ class Gen:
         if x < 0.86:
             return "{ %s; }%s" % (c(), r.choice(["", " " + self.redir(d - 1), " | cat", " &\nwait"]))
         if x < 0.91:
-            return "%s() { %s; }; %s %s" % (r.choice(["f", "g"]), c().replace("f ", "echo ").replace("g;", ":;").replace("g\n", ":\n") if True else c(), r.choice(["f", "g"]), self.word(d - 1))
+            # f may call g, g calls no function: generated scripts never recurse
+            name = r.choice(["f", "g"])
+            body = re.sub(r"\bg\b" if name == "f" else r"\b[fg]\b", ":", c())
+            if name == "f":
+                body = re.sub(r"\bf\b", ":", body)
+            return "%s() { %s; }; %s %s" % (name, body, name, self.word(d - 1))
         if x < 0.94:
             return "! %s" % c()
         if x < 0.97:
@@ -799,7 +805,7 @@ def token_mutate(rng, s):
     return "".join(toks)
 
 
-RECURSIVE = re.compile(r"\b([fg])\(\) \{.*\b\1\b", re.S)
+RECURSIVE = re.compile(r"\b(\w+)\(\)\s*\{[^}]*\b\1\b", re.S)
 
 
 def run_script(script, timeout=10, mem_gb=3, which="brush", interactive=False, stdin=None):
@@ -884,7 +890,7 @@ def explore_binary(ctx):
     while len(scripts) < n and tries < n * 3:
         tries += 1
         s = g.script()
-        if unsafe_count(s) or RECURSIVE.search(s) or known_hang_clause(s) or "\x00" in s:
+        if unsafe_count(s) or known_hang_clause(s) or "\x00" in s:
             ctx.bucket("gen_rejected_unbounded")
             continue
         scripts.append(("gen", s, False, 3))
